@@ -585,6 +585,7 @@ def run(ctx: Ctx):
         impl.append((line, out, rr))
         reqs.append(f"pqr.fmt\t{int(kc)}\t{enc_atom(a)}")
         reqs.append(f"pqr.fromline\t{hexs(out + chr(10))}")
+        reqs.append(f"pqr.fits\t{int(kc)}\t{enc_atom(a)}")
         if ws:
             reqs.append(f"pqr.write\t1\t{int(kc)}\t0\t{enc_atom(a)}")
     answers = ctx.driver.ask(reqs) if have_model else None
@@ -592,7 +593,7 @@ def run(ctx: Ctx):
     for i, (a, kc, ws) in enumerate(cases):
         line, out, rr = impl[i]
         base_i = pos
-        pos += 3 if ws else 2
+        pos += 4 if ws else 3
         ctx.evaluations += 1
         ctx.distinct.add(width_class(a, kc, ws))
         inside = fits_ws(a, kc) if ws else fits(a, kc)
@@ -601,9 +602,12 @@ def run(ctx: Ctx):
         if answers is not None:
             mline = unhexs(answers[base_i])
             mread = dec_fields(answers[base_i + 1]) if "," in answers[base_i + 1] else answers[base_i + 1]
+            # the harness's domain split must be the Lean predicates Fits / FitsWs
+            if answers[base_i + 2] != f"{int(fits(a, kc))}{int(fits_ws(a, kc))}" and len(a["name"]) <= 4:
+                ctx.disagree("Fits/FitsWs (harness vs Lean)", {"atom": a, "kc": kc}, answers[base_i + 2], f"{int(fits(a, kc))}{int(fits_ws(a, kc))}")
             if ws and a["serial"] == 1:
                 # model of print_pqr's re-spacing on this very line (serial 1 = what the writer would number it)
-                mout = unhexs(answers[base_i + 2]).split("\n")[0]
+                mout = unhexs(answers[base_i + 3]).split("\n")[0]
                 if mout != out:
                     (ctx.disagree if inside else _outside(ctx))("print_pqr(whitespace)", {"atom": a, "kc": kc}, mout, out)
             if mline != line:
